@@ -12,6 +12,7 @@ let rec parse_ops toks = match toks with
   | "drain" :: r -> SDrain :: parse_ops r
   | "peek" :: n :: r -> SPeek (nat_of_int (int_of_string n), true) :: parse_ops r
   | "peekn" :: n :: r -> SPeek (nat_of_int (int_of_string n), false) :: parse_ops r
+  | "raw" :: h :: r -> SRaw (bytes_of_hex h) :: parse_ops r
   | "dump" :: r -> parse_ops r
   | t :: _ -> failwith ("bad op " ^ t)
 let hexm m = if m = [] then "E" else hex_of_bytes m
@@ -81,6 +82,18 @@ let () =
       else begin
       let w = world_init (n wc) (n wo) (n rc) (n ro) in
       Printf.printf "M %s %s\n" id (String.concat " " (List.map show_m (wrun (variant (int_of_string v)) w ops))) end;
+      let has_raw = List.exists (fun o -> match o with SRaw _ -> true | _ -> false) ops in
+      if has_raw then begin
+        (* C03 ring cases: the reference decodings of the well-formed complete frames among the bytes put in so far *)
+        let vv = variant (int_of_string v) in
+        let acc = ref [] in
+        let toks = List.map (fun o ->
+          (match o with SRaw b -> acc := !acc @ b | _ -> ());
+          let (bodies, _) = split_frames [] !acc in
+          let decs = List.filter_map (fun b -> sdec vv b) bodies in
+          show_spec decs) ops in
+        Printf.printf "S %s %s\n" id (String.concat " " toks)
+      end else
       Printf.printf "S %s %s\n" id (String.concat " " (List.map show_spec (sspec_run { sent = []; cur = []; open_ = false } ops)))
       end
     | _ -> ()) (read_lines ic)
